@@ -482,6 +482,12 @@ def run_fault(k, cs, counters, sweep=None):
         mutated, desc = bytes(b), {'fault': 'sweep', 'structure': kind, 'offset': off, 'width': width, 'value': '%#x' % val}
     else:
         mutated, desc = make_fault(rng, data, ranges)
+        if cs % 5 == 2 and len(mutated) == len(data):
+            # two independent faults in one image (a damaged pointer and a damaged target); the
+            # second one from its own generator, so that the first is the fault this case always had
+            mutated, d2 = make_fault(random.Random(cs ^ 0x5f5f5f), mutated, ranges)
+            desc = dict(desc, second=d2)
+            counters['double_faults'] = counters.get('double_faults', 0) + 1
     with_mem = (cs % 16 == 0)
     res = attempt(mutated, counters, with_mem)
     counters['opens_attempted'] = counters.get('opens_attempted', 0) + 1
